@@ -1,3 +1,8 @@
 import XProofs.Properties.C03
 #print axioms Properties.C03.C03_register_inv
 #print axioms Properties.C03.C03_unregister_inv
+#print axioms Properties.C03.C03_init
+#print axioms Properties.C03.C03_one_call
+#print axioms Properties.C03.C03_all_histories
+#print axioms Properties.C03.C03_refresh
+#print axioms Properties.C03.C03_no_stale_ids
